@@ -84,12 +84,15 @@ def run(rep: Report) -> None:
     # ------------------------------------------------------------ (a) the scan
     n = 0
     typestates = ["ready", "unstepped", "uninitialised", "no-states", "no-actions", "no-disturbances"]
-    for st in ("SX", "MX"):
+    for st, same in (("SX", False), ("MX", False), ("SX", True)):
+        # (same: two links carry the same name - names are labels, not identities)
         net_probe = CP.build_network(prog, st)
         nel = len(net_probe.links + net_probe.origins + net_probe.dests)
         for idx in range(nel):
             for ts in typestates:
-                net = CP.build_network(prog, st)
+                if same and (idx >= len(net_probe.links) or ts not in ("unstepped", "uninitialised", "ready")):
+                    continue
+                net = CP.build_network(prog, st, same_names=same)
                 CP.set_opaque_states(net)
                 els = net.links + net.origins + net.dests
                 el = els[idx]
@@ -112,7 +115,7 @@ def run(rep: Report) -> None:
                 missing = [g for g in GROUPS if decl[g] and el.attrs.get(g) is None]
                 expected_raise = bool(missing) or (decl["states"] and el.attrs.get("next_states") is None)
                 cname = el.cls.split(":")[1]
-                label = f"{st}: {cname} `{el.ident}` (element {idx + 1} of {nel}) {ts}"
+                label = f"{st}{' duplicate-names' if same else ''}: {cname} `{el.ident}` (element {idx + 1} of {nel}) {ts}"
                 r = CP.to_function(prog, net, compact=0, scan_only=True)
                 n += 1
                 if r[0] == "raise":
